@@ -375,6 +375,10 @@ class Verifier(Exec):
                 self.strlit_bytes_fact(st, v)
             return SeqV(select(h, v.arr), v.off, v.len, self.byte_tid())
         if isinstance(v, PtrV):
+            if self.kind(v.elem) == 'struct' and in_struct:
+                # a pointer held in a field of a snapshot is not followed (types may be recursive): it stays an
+                # address, and what is read through it is read from the heap of the evaluation state
+                return self.ptr_term(st, v) if v.term is None else v
             if self.kind(v.elem) == 'struct':
                 a = v.addr if v.addr is not None else ('obj', v.elem, v.term)
                 if self.addr_root(a)[0] != 'cell':
@@ -448,6 +452,8 @@ class Verifier(Exec):
         if self.is_bool(tid):
             return const(prefix, BOOL)
         if self.is_scalar(tid):
+            if k == 'pointer' and self.kind(self.U(tid)['elem']) == 'struct' and in_struct:
+                return PtrV(const(prefix, INT), self.U(tid)['elem'])
             if k == 'pointer' and self.kind(self.U(tid)['elem']) == 'struct':
                 r_ = self.formal(prefix, self.U(tid)['elem'])
                 r_.addr = PtrV(const(prefix + '.p', INT), self.U(tid)['elem'])
@@ -548,6 +554,15 @@ class Verifier(Exec):
         if fname not in self.ctx.declared:
             self.ctx.declare_fun(fname, [t.sort for t in flat], rsort)
         r = app(fname, flat, rsort)
+        afs_ = getattr(self.specs, 'appfacts', {}).get(sf.name)
+        if afs_ and r not in self.unfolded and not self.has_bound(flat) and self.heap_record is None:
+            if sf.body is None:
+                self.unfolded.add(r)
+            env_ = dict((p[0], s_) for p, s_ in zip(sf.params, snaps))
+            env_['result'] = r
+            for cl_ in afs_:
+                self.ctx.assume(SpecEval(self, ev.st, env_, None, cl_.src).boolean(cl_.expr))
+            self.trusted.add('assumed fact about %s: %s' % (sf.name, '; '.join(c_.text for c_ in afs_)))
         if sf.body is not None and (self.unfolding == 0 or (sf.decreases is None and self.unfolding <= 3)) and r not in self.unfolded and not self.has_bound(flat):
             self.unfolded.add(r)
             self.unfolding += 1
@@ -1881,7 +1896,24 @@ class Verifier(Exec):
         if isinstance(s, StrV):
             s = SliceV(s.arr, s.off, s.len, s.len, e)
         if not self.is_scalar(e):
-            raise Unsupported('copy of aggregate elements')
+            # elements that are structs / slices / arrays: the destination elements are havocked and stated equal,
+            # leaf by leaf, to the source elements of the state before the copy
+            n = self.ctx.name('copyn', ite(le(d.len, s.len), d.len, s.len))
+            pre = st.copy()
+            if self.writable is not None or any(w is not None for w in self.loop_writes):
+                st2 = st.copy()
+                kk = self.ctx.fresh('copyk', INT)
+                st2.pc = and_(st.pc, le(d.off, kk), lt(kk, add(d.off, n)))
+                self.frame_check_obj(st2, self.elemaddr(d.arr, kk), e)
+            self.havoc_regions(st, [('objs', e, d.arr, d.off, add(d.off, n))], 'copy')
+            ev = SpecEval(self, st, {}, None, 'copy')
+            nq = self.ctx.counter.get('q:cp', 0)
+            self.ctx.counter['q:cp'] = nq + 1
+            k = const('cp?%d' % nq, INT)
+            newv = self.obj_load(st, e, self.elemaddr(d.arr, add(d.off, k)))
+            oldv = self.obj_load(pre, e, self.elemaddr(s.arr, add(s.off, k)))
+            self.ctx.assume(forall([k], implies(and_(le(ZERO, k), lt(k, n)), ev.ident_eq(newv, oldv)), [self.elemaddr(d.arr, add(d.off, k))]))
+            return n
         n = self.ctx.name('copyn', ite(le(d.len, s.len), d.len, s.len))
         self.own_check(st, e, d.arr, d.off, add(d.off, n))
         name = self.hs_name(e)
